@@ -6,6 +6,9 @@ ids = [p['id'] for p in props]
 E = 'exploration'; M = 'model_checking'; F = 'fault_enumeration'
 # id: (level, technique, level text, level_note, design_ref)
 checks = {
+ 'C38': (E, 'bounded-exhaustive enumeration of message sequences and of malformed streams (all truncations, single-byte substitutions, header menu) against an independent framing reference model, in worker subprocesses',
+         'All sequences of <=2 (quick) / <=3 (thorough) messages over a 156-message menu are written by the real HeaderFramer, parsed by the reference framingref, read back whole and one byte per Read and compared; every truncation and every substitution from a 9-byte set at every position of base streams plus a 78-variant header/body menu are judged per Read against the reference (Accept/Reject/Unsure); consumption must end exactly at the declared length.',
+         'Reference model from the LSP base protocol + JSON-RPC 2.0 texts; streams the reference cannot decide are excluded and counted; up-front allocation of the declared length (<=2 GiB) is observed, not judged.', '§2 C38'),
  'C17': (E, 'bounded-exhaustive enumeration of sources (corpus, seeds, expression grammar closed to depth 1/2 x statement contexts); every node of every tree checked against an independent scan and a re-parse',
          'All nodes of all cleanly parsing trees of the pool: Pos/End on token boundaries of an independent scan, children nested/ordered/disjoint, stand-alone expression kinds re-parse from their source slice to an equal tree. Complete over the enumerated pool.',
          'Necessary conditions only; nodes inside string/domain literals, implicit EmptyStmt, synthetic shadow-entry/file-name parts and the FuncType/receiver overlap (go/ast convention) are exempt.', '§2 C17'),
